@@ -45,7 +45,7 @@ def objNameTag (d : Desc) (it : RegItem) : String :=
   | _ => s!"{it.name}:{it.tag}"
 
 def firstWord (d : Desc) (it : RegItem) : String :=
-  match zeroVal d (fuelFor d 64) it.idx with
+  match Z.zeroVal d (fuelFor d 64) it.idx with
   | none => "?"
   | some z =>
     match writeTL1 d (fuelFor d 64) it.idx false [] z with
@@ -79,7 +79,7 @@ def handleMisc : OpHandler := fun st op args =>
     match st.lookup sid, ty.toNat? with
     | some sc, some ty =>
       let fuel := fuelFor sc.desc 64
-      match zeroVal sc.desc fuel ty with
+      match Z.zeroVal sc.desc fuel ty with
       | none => some "model-err zero"
       | some z => some ("ok " ++ w1both sc.desc fuel ty z)
     | _, _ => some "bad-op"
@@ -87,7 +87,7 @@ def handleMisc : OpHandler := fun st op args =>
     match st.lookup sid, ty.toNat? with
     | some sc, some ty =>
       let fuel := fuelFor sc.desc 64
-      match zeroVal sc.desc fuel ty with
+      match Z.zeroVal sc.desc fuel ty with
       | none => some "model-err zero"
       | some z => some ("ok " ++ w1both sc.desc fuel ty z)
     | _, _ => some "bad-op"
